@@ -36,6 +36,19 @@ CLAIMED = {
              "defaultProfiles assignment, unknown removal rejected.",
         design_ref="DESIGN.md section 5 C14",
         note="Trusted: TLC, the adapter's probe battery (literal-string macro bodies). Regex semantics themselves are C13's subject."),
+    "C09": dict(
+        technique="TLA+ contract (SheetDOMContract) + algorithm-layer machine mirroring CSSStyleSheet.insertRule (SheetDOM.tla, "
+                  "deviation switch for the historical ordered-add placement) checked by TLC; TLC-generated transition tour and "
+                  "simulated walks replayed on CSSStyleSheet / @media / @page lists; TLC trace monitor",
+        text="Bounded exhaustive over edit histories: every explored transition of the machine (10 rule kinds incl. merged margin boxes, "
+             "rules as text and as objects, insert at every index, ordered add, delete, cssText/encoding assignment, nested list edits, "
+             "declaration edits with foreign Property objects) is executed on the real DOM; after each step TLC checks "
+             "OneCharsetFirst, Ordered, ChildrenAllowed, ParentMirror, DetachedHaveNoParent, ReparseKeepsEveryRule and that the "
+             "step is allowed (accepted insert puts exactly that rule at that index, ordered add at some valid index, rejected "
+             "=> unchanged).",
+        design_ref="DESIGN.md section 5 C09",
+        note="Trusted: TLC, adapter projection (identity checks of parent links are computed in Python and judged in TLC). "
+             "Rule payloads are fixed templates; serializer runs with keepEmptyRules=True."),
 }
 PENDING = "check not built yet in this round (see DESIGN.md section 10 build order); no claim is made"
 NOT_APPLICABLE = {}
